@@ -4405,6 +4405,23 @@ fn attribute_name(name: &parser::AttributeName) -> (String, Option<String>) {
 }
 
 fn attr_value_from_name(name: &str, context: &Context) -> error::Result<String> {
+    // WFC: No Recursion. A chain of entity references that never repeats a name is no longer
+    // than the number of declared entities (a predefined entity ends it).
+    let depth = context
+        .document()
+        .borrow()
+        .document_declaration()
+        .map(|v| v.borrow().entities().len())
+        .unwrap_or_default()
+        + 1;
+    attr_value_from_name_within(name, context, depth)
+}
+
+fn attr_value_from_name_within(
+    name: &str,
+    context: &Context,
+    depth: usize,
+) -> error::Result<String> {
     let entity = context.entity(name)?;
     let mut parsed = String::new();
     for value in entity.borrow().values().unwrap_or_default() {
@@ -4415,11 +4432,15 @@ fn attr_value_from_name(name: &str, context: &Context) -> error::Result<String> 
                 _ => unreachable!(),
             },
             XmlEntityValue::Entity(v) => {
-                let v = attr_value_from_name(v, context)?;
+                if depth == 0 {
+                    return Err(error::Error::InvalidData(format!("&{};", v)));
+                }
+                let v = attr_value_from_name_within(v, context, depth - 1)?;
                 parsed.push_str(v.as_str());
             }
-            XmlEntityValue::Parameter(_) => {
-                unimplemented!("Not support parameter entity reference.")
+            XmlEntityValue::Parameter(v) => {
+                // Not support parameter entity reference.
+                return Err(error::Error::InvalidData(format!("%{};", v)));
             }
             XmlEntityValue::Text(v) => parsed.push_str(normalize_ws(v).as_str()),
         }
